@@ -83,6 +83,7 @@ type Guard struct {
 	In     string // optional: restrict to call sites inside this function
 	Line   int
 	Ord    int // optional: only the Ord-th call of the callee within the enclosing function
+	Optional bool // `guard?`: a prohibition — it is fine (and the normal case) that no site matches
 	Hits   int // number of sites this guard produced an obligation for (0 = the guard is vacuous: reported)
 }
 
@@ -216,13 +217,14 @@ func (db *SpecDB) parseFile(file, pkgPath, text string) {
 			pf.Pkg = pkgPath
 			pf.Src = l.s
 			db.Pure[pf.Name] = pf
-		case "guard":
+		case "guard", "guard?":
 			cur = nil
 			g, err := parseGuard(rest)
 			if err != nil {
 				db.errf(file, l.n, "guard: %v", err)
 				continue
 			}
+			g.Optional = word == "guard?"
 			g.Pkg, g.Props, g.Src, g.Line = pkgPath, append([]string{}, props...), l.s, l.n
 			db.Guards = append(db.Guards, g)
 		case "ghost":
